@@ -53,6 +53,15 @@ fn gone_clause(st: &KeyState) -> &'static str {
     }
 }
 
+/// A presence-dependent command treated a dead record as present: dead by its own TTL is C05's
+/// matter, dead by a delayed flush's deadline is C08's.
+fn tomb_visible_clause(st: &KeyState) -> &'static str {
+    match st {
+        KeyState::Tomb(TombWhy::FlushDeadline) => "flush-deadline",
+        _ => "expired-visible",
+    }
+}
+
 struct Eval {
     ki: KeyInfo,
     viol: Vec<Viol>,
@@ -563,8 +572,14 @@ impl Model {
                         let clause = if flush_pending && value_ok {
                             "store-after-flush-affected"
                         } else if value_ok {
-                            // value and flags are the sent ones, the recorded life is not now + ttl
-                            "stored-expiry"
+                            // value and flags are the sent ones, the recorded life is not now + ttl:
+                            // too short a life also breaks read-your-writes (C01), too long only C05
+                            let short = matches!(after_e, Some(d) if d.expiry() < t_inf(now, *ttl));
+                            if short {
+                                "stored-expiry-short"
+                            } else {
+                                "stored-expiry"
+                            }
                         } else if *kind == StoreKind::Set {
                             "stored-exactly"
                         } else {
@@ -650,7 +665,7 @@ impl Model {
                         let expired = matches!(ki.st, KeyState::Tomb(_));
                         if *kind == StoreKind::Replace {
                             if success {
-                                let clause = if expired { "expired-visible" } else { "replace-on-absent" };
+                                let clause = if expired { tomb_visible_clause(&ki.st) } else { "replace-on-absent" };
                                 ev.viol.push(v(clause, format!("{} succeeded on a key in state {:?}", name, ki.st)));
                             } else {
                                 if status != Some(st::NOT_FOUND) {
@@ -667,7 +682,7 @@ impl Model {
                         } else if c.cas == 0 {
                             let clause = if *kind == StoreKind::Add {
                                 if expired {
-                                    "expired-visible"
+                                    tomb_visible_clause(&ki.st)
                                 } else {
                                     "add-on-absent"
                                 }
@@ -753,7 +768,7 @@ impl Model {
                 }
                 None => {
                     if success {
-                        let clause = if matches!(ki.st, KeyState::Tomb(_)) { "expired-visible" } else { "concat-on-absent" };
+                        let clause = if matches!(ki.st, KeyState::Tomb(_)) { tomb_visible_clause(&ki.st) } else { "concat-on-absent" };
                         ev.viol.push(v(clause, format!("{} succeeded on a key in state {:?}", name, ki.st)));
                     } else if after_e.is_some() && !unchanged {
                         ev.viol.push(v("nothing-stored", format!("rejected {} left {:?}", name, after_e)));
@@ -916,7 +931,7 @@ impl Model {
                         });
                         ev.wrote = true;
                     } else if c.cas == 0 {
-                        let clause = if matches!(ki.st, KeyState::Tomb(_)) { "expired-visible" } else { "counter-create" };
+                        let clause = if matches!(ki.st, KeyState::Tomb(_)) { tomb_visible_clause(&ki.st) } else { "counter-create" };
                         ev.viol.push(v(clause, format!("{} answered {:?} on a key in state {:?}", name, status, ki.st)));
                     } else if after_e.is_some() && !unchanged {
                         ev.viol.push(v("nothing-stored", format!("rejected {} left {:?}", name, after_e)));
